@@ -574,7 +574,7 @@ func runSpec(s spec, ip string) *vh.Case {
 	}
 	if s.connTimeout > 0 {
 		opts = append(opts, syncer.WithConnectTimeout(s.connTimeout))
-		c.Tags = append(c.Tags, "connect-timeout:"+s.connTimeout.String())
+		c.Tags = append(c.Tags, "connect-timeout:short")
 	}
 	nodes := make([]*nodeRec, n)
 	for i := range chains {
@@ -807,11 +807,17 @@ func runSpec(s spec, ip string) *vh.Case {
 	if s.connTimeout > 0 {
 		time.Sleep(time.Until(lastConnect.Add(s.connTimeout + 700*time.Millisecond)))
 	}
-	for i, nr := range nodes {
-		if got := len(nr.n.S.Peers()); got < degree[i] {
-			c.Oracle("peer-lost-without-cause", "node %d has %d of its %d links left although no node closed a connection or misbehaved (bans: %v)", i, got, degree[i], nr.n.Store.Bans())
-			break
+	// (the accepting side enters a link a moment after Connect has returned on the dialling side)
+	lost := func() string {
+		for i, nr := range nodes {
+			if got := len(nr.n.S.Peers()); got < degree[i] {
+				return fmt.Sprintf("node %d has %d of its %d links left although no node closed a connection or misbehaved (bans: %v)", i, got, degree[i], nr.n.Store.Bans())
+			}
 		}
+		return ""
+	}
+	if !netx.WaitFor(3*time.Second, func() bool { return lost() == "" }) {
+		c.Oracle("peer-lost-without-cause", "%s", lost())
 	}
 	close(stop)
 	awg.Wait()
